@@ -25,7 +25,8 @@ REQUIRED = ["trees_built", "trees_with_unpruned_leaf", "trees_fully_pruned", "pr
             "rendered_tags_checked", "rendered_tags_checked:node_pruned_by_both_kinds",
             "parse_eliminated_set_names_an_id_outside_the_candidate_list", "eliminated_sets_given_as_frozensets",
             "sets_with_a_vacuous_assertion_whose_candidate_is_in_its_own_eliminated_set",
-            "parse_logs_with_missing_or_short_assertion_json"]
+            "parse_logs_with_missing_or_short_assertion_json",
+            "parse_winner_only_entry_with_an_empty_list_or_null_for_already_eliminated"]
 ASSUMPTIONS = ["tag comparison is by assertion content (the module identifies an assertion by list.index, which maps exact "
                "duplicates to one index)"]
 N_CASES = {"quick": 128000, "thorough": 1024000}
@@ -273,7 +274,11 @@ def run_parse(case, rec, V):
         proved = rng.random() < 0.5
         if rng.random() < 0.5:
             w, l = rng.sample(cands, 2)
-            ajson.append({"assertion_type": "WINNER_ONLY", "winner": w, "loser": l, "already_eliminated": ""})
+            # the empty "already eliminated" entry of a not-eliminated-before assertion, as different writers serialise it
+            empty = rng.choice(("", "", "", [], None))
+            if empty != "":
+                rec.count("parse_winner_only_entry_with_an_empty_list_or_null_for_already_eliminated")
+            ajson.append({"assertion_type": "WINNER_ONLY", "winner": w, "loser": l, "already_eliminated": empty})
             adict[f"a{j}"] = {"winner": w, "loser": l, "proved": proved}
             want_wo.append((l, w, proved))
         else:
